@@ -1025,7 +1025,11 @@ impl Parser {
             let inp_term = self.get_input_els()?;
             if inp_term.is_empty() && inputs.is_empty() {
                 return Err(RuleSyntaxError::UnknownCharacter(self.curr_tkn.value.chars().next().unwrap(), self.group, self.line, self.pos))
-            } else if inp_term.is_empty() && !self.expect(TokenKind::Comma) {
+            } else if inp_term.is_empty() {
+                // `a, , b`: an alternative between two commas cannot be empty
+                if self.peek_expect(TokenKind::Comma) {
+                    return Err(RuleSyntaxError::EmptyInput(self.group, self.line, self.curr_tkn.position.start))
+                }
                 break;
             }
             
@@ -1073,7 +1077,10 @@ impl Parser {
             let out_term = self.get_output_els()?;
             if out_term.is_empty() && outputs.is_empty(){
                 return Err(RuleSyntaxError::EmptyOutput(self.group, self.line, self.token_list[self.pos].position.start))
-            } else if out_term.is_empty() && !self.expect(TokenKind::Comma) {
+            } else if out_term.is_empty() {
+                if self.peek_expect(TokenKind::Comma) {
+                    return Err(RuleSyntaxError::EmptyOutput(self.group, self.line, self.curr_tkn.position.start))
+                }
                 break;
             }
 
